@@ -2,6 +2,7 @@ package main
 
 import (
 	"fmt"
+	"os"
 	"sort"
 	"strings"
 	"time"
@@ -128,7 +129,7 @@ var dts = []time.Duration{time.Second, 61 * time.Second, 3601 * time.Second}
 
 var stores = []string{"concentratedliquidity", "bank", "acc", "poolmanager", "lockup", "incentives", "twap", "protorev", "txfees", "poolincentives", "epochs", "mint", "distribution", "gamm", "superfluid"}
 
-func big(n int64) sdkmath.Int { return sdkmath.NewInt(n) }
+func sdkInt(n int64) sdkmath.Int { return sdkmath.NewInt(n) }
 
 // NewWorld builds the app, the pool and the range table for a configuration.
 func NewWorld(cfg Config) *World {
@@ -238,10 +239,10 @@ func (w *World) pool(ctx sdk.Context) cltypes.ConcentratedPoolExtension {
 func coinsOf(a0, a1 int64) sdk.Coins {
 	c := sdk.NewCoins()
 	if a0 > 0 {
-		c = c.Add(sdk.NewCoin(Denom0, big(a0)))
+		c = c.Add(sdk.NewCoin(Denom0, sdkInt(a0)))
 	}
 	if a1 > 0 {
-		c = c.Add(sdk.NewCoin(Denom1, big(a1)))
+		c = c.Add(sdk.NewCoin(Denom1, sdkInt(a1)))
 	}
 	return c
 }
@@ -291,7 +292,7 @@ func (w *World) Apply(ctx sdk.Context, l *Ledger, op Op, fail func(a, s, d strin
 		if !paid.AmountOf(Denom0).Equal(resp.Amount0) || !paid.AmountOf(Denom1).Equal(resp.Amount1) {
 			fail("create.response-matches-balance", "", fmt.Sprintf("response (%s,%s) but balance moved %s", resp.Amount0, resp.Amount1, paid))
 		}
-		if resp.Amount0.GT(big(op.X)) || resp.Amount1.GT(big(op.Y)) {
+		if resp.Amount0.GT(sdkInt(op.X)) || resp.Amount1.GT(sdkInt(op.Y)) {
 			// observed on the unchanged tree: liquidity is derived from the provided amounts with truncation and
 			// the charged amounts are re-derived rounding up, which can exceed the provided amount by one unit.
 			// No listed property forbids it; counted, not asserted.
@@ -302,7 +303,7 @@ func (w *World) Apply(ctx sdk.Context, l *Ledger, op Op, fail func(a, s, d strin
 			return ctx, "rejected:no-such-position"
 		}
 		p := l.Pos[op.P]
-		msg := &cltypes.MsgAddToPosition{PositionId: p.ID, Sender: core.Acc(p.Owner).String(), Amount0: big(op.X), Amount1: big(op.Y),
+		msg := &cltypes.MsgAddToPosition{PositionId: p.ID, Sender: core.Acc(p.Owner).String(), Amount0: sdkInt(op.X), Amount1: sdkInt(op.Y),
 			TokenMinAmount0: sdkmath.ZeroInt(), TokenMinAmount1: sdkmath.ZeroInt()}
 		inc0 := bal(w, ctx, core.Acc(p.Owner))
 		r := core.Deliver(a, ctx, msg)
@@ -369,12 +370,15 @@ func (w *World) Apply(ctx sdk.Context, l *Ledger, op Op, fail func(a, s, d strin
 		var r core.MsgResult
 		if op.K == "swapin" {
 			r = core.Deliver(a, ctx, &pmtypes.MsgSwapExactAmountIn{Sender: t.String(), Routes: []pmtypes.SwapAmountInRoute{{PoolId: w.PoolID, TokenOutDenom: out}},
-				TokenIn: sdk.NewCoin(in, big(op.X)), TokenOutMinAmount: sdkmath.OneInt()})
+				TokenIn: sdk.NewCoin(in, sdkInt(op.X)), TokenOutMinAmount: sdkmath.OneInt()})
 		} else {
 			r = core.Deliver(a, ctx, &pmtypes.MsgSwapExactAmountOut{Sender: t.String(), Routes: []pmtypes.SwapAmountOutRoute{{PoolId: w.PoolID, TokenInDenom: in}},
-				TokenOut: sdk.NewCoin(out, big(op.X)), TokenInMaxAmount: sdkmath.NewIntFromUint64(1 << 62)})
+				TokenOut: sdk.NewCoin(out, sdkInt(op.X)), TokenInMaxAmount: sdkmath.NewIntFromUint64(1 << 62)})
 		}
 		if !r.OK() {
+			if os.Getenv("VERIF_DEBUG") != "" {
+				fmt.Println("   swap error:", r.Err)
+			}
 			return ctx, errClass(r.Err)
 		}
 		after := bal(w, ctx, t)
@@ -390,10 +394,10 @@ func (w *World) Apply(ctx sdk.Context, l *Ledger, op Op, fail func(a, s, d strin
 			if !resp.TokenOutAmount.Equal(recv) {
 				fail("swap.response-matches-balance", "", fmt.Sprintf("response out=%s, balance moved out=%s", resp.TokenOutAmount, recv))
 			}
-			if paid.GT(big(op.X)) {
+			if paid.GT(sdkInt(op.X)) {
 				fail("swap.charged-at-most-specified-input", "", fmt.Sprintf("specified in=%d, charged %s", op.X, paid))
 			}
-			if paid.LT(big(op.X)) {
+			if paid.LT(sdkInt(op.X)) {
 				l.PartialFills++
 			}
 		} else {
@@ -402,10 +406,10 @@ func (w *World) Apply(ctx sdk.Context, l *Ledger, op Op, fail func(a, s, d strin
 			if !resp.TokenInAmount.Equal(paid) {
 				fail("swap.response-matches-balance", "", fmt.Sprintf("response in=%s, balance moved in=%s", resp.TokenInAmount, paid))
 			}
-			if recv.GT(big(op.X)) {
+			if recv.GT(sdkInt(op.X)) {
 				fail("swap.paid-out-at-most-specified-output", "", fmt.Sprintf("specified out=%d, paid out %s", op.X, recv))
 			}
-			if recv.LT(big(op.X)) {
+			if recv.LT(sdkInt(op.X)) {
 				l.PartialFills++
 			}
 		}
@@ -466,7 +470,7 @@ func (w *World) Apply(ctx sdk.Context, l *Ledger, op Op, fail func(a, s, d strin
 		}
 		l.Pos[op.P].Owner = op.A
 	case "incentive":
-		coin := sdk.NewCoin(IncDen, big(op.X))
+		coin := sdk.NewCoin(IncDen, sdkInt(op.X))
 		rate := osmomath.NewDec(op.Y)
 		start := ctx.BlockTime()
 		rec, err := w.createIncentive(ctx, coin, rate, start, w.Uptime[op.D])
